@@ -587,18 +587,23 @@ impl Meter {
             }
         }
     }
-    fn drain<I, T>(&mut self, entry: &str, cap: usize, it: &mut I, mut each: impl FnMut(&Result<T, shapefile::Error>))
+    /// returns whether the iteration came to its end (None) within the cap
+    fn drain<I, T>(&mut self, entry: &str, cap: usize, it: &mut I, mut each: impl FnMut(&Result<T, shapefile::Error>)) -> bool
     where
         I: Iterator<Item = Result<T, shapefile::Error>>,
     {
         let mut n = 0usize;
+        let mut ended = false;
         loop {
             let item = match self.call(entry, || it.next()) {
                 Some(x) => x,
                 None => break, // panicked: the iterator state is unknown
             };
             match item {
-                None => break,
+                None => {
+                    ended = true;
+                    break;
+                }
                 Some(x) => {
                     each(&x);
                     self.out.u64(x.is_ok() as u64);
@@ -614,6 +619,7 @@ impl Meter {
             }
         }
         self.out.u64(n as u64);
+        ended
     }
 }
 
@@ -622,9 +628,10 @@ pub fn drive(prop: Prop, shp: &[u8], shx: &[u8], hdr_ty: Ty) -> CaseResult {
     let cap = total + 16;
     let mut m = Meter { budget: 64 * total + 64 * 1024, prop, findings: vec![], calls: 0, out: Fnv::new() };
     // 1. no index: iter_shapes to the end
+    let mut plain_ends = (false, false); // (without index, with index)
     if let Some(Ok(mut r)) = m.call("new", || ShapeReader::new(Dev::quiet(shp.to_vec()))) {
         if let Some(mut it) = m.call("iter_shapes()", || r.iter_shapes()) {
-            m.drain("iter_shapes", cap, &mut it, |_| {});
+            plain_ends.0 = m.drain("iter_shapes", cap, &mut it, |_| {});
         }
     }
     // 2. typed iteration with the header's own type
@@ -670,6 +677,9 @@ pub fn drive(prop: Prop, shp: &[u8], shx: &[u8], hdr_ty: Ty) -> CaseResult {
                     Some(x) => x,
                     None => break,
                 };
+                if item.is_none() {
+                    plain_ends.1 = true;
+                }
                 if item.is_none() || !hint_ok {
                     break;
                 }
@@ -702,6 +712,12 @@ pub fn drive(prop: Prop, shp: &[u8], shx: &[u8], hdr_ty: Ty) -> CaseResult {
     {
         use crate::iterprog::{self, Prog};
         for p in [Prog::NextNthHuge, Prog::NthHuge, Prog::NextLast, Prog::Count, Prog::StepBy(2), Prog::NextSkip(1), Prog::NthNext(1)] {
+            // programs that consume the whole iteration cannot be capped from outside: where the plain iteration
+            // does not end (reported above) std's default `count` / `last` / `nth` would spin on it
+            let unbounded = matches!(p, Prog::NextNthHuge | Prog::NthHuge | Prog::NextLast | Prog::Count);
+            if unbounded && !plain_ends.0 {
+                continue;
+            }
             if let Some(Ok(mut r)) = m.call("new", || ShapeReader::new(Dev::quiet(shp.to_vec()))) {
                 let o = m.call(&format!("iter_shapes().{}", p.name()), || {
                     let o = iterprog::run(r.iter_shapes(), p, cap);
@@ -713,6 +729,9 @@ pub fn drive(prop: Prop, shp: &[u8], shx: &[u8], hdr_ty: Ty) -> CaseResult {
                         m.findings.push((format!("iter_shapes().{}:iteration-does-not-end", p.name()), format!("{} items / count {:?} from an input of {} bytes", n, c, total)));
                     }
                 }
+            }
+            if unbounded && !plain_ends.1 {
+                continue;
             }
             if let Some(Ok(mut r)) = m.call("with_shx", || ShapeReader::with_shx(Dev::quiet(shp.to_vec()), Dev::quiet(shx.to_vec()))) {
                 let o = m.call(&format!("iter_shapes()+shx.{}", p.name()), || {
@@ -744,6 +763,10 @@ pub fn run_input(prop: Prop, bs: &[Base], inp: &Input) -> Option<CaseResult> {
 // worker
 
 pub fn worker_main(prop: Prop, tier: Tier, from: usize, to: usize) -> i32 {
+    // a worker must not outlive its supervisor (a spinning orphan would keep a core and every inherited descriptor)
+    unsafe {
+        libc::prctl(libc::PR_SET_PDEATHSIG, libc::SIGKILL);
+    }
     let bs = bases();
     let ins = inputs(tier, &bs);
     let stdout = std::io::stdout();
@@ -819,7 +842,7 @@ fn supervise(prop: Prop, tier: Tier, ins: &[Input], from: usize, to: usize, ctx:
         let mut saw_cap = false;
         let mut hung = false;
         loop {
-            match rx.recv_timeout(Duration::from_secs(HANG_SECS)) {
+            match rx.recv_timeout(Duration::from_secs(E3_HANG_SECS)) {
                 Ok(line) => {
                     tick();
                     let mut it = line.splitn(3, ' ');
@@ -874,7 +897,7 @@ fn supervise(prop: Prop, tier: Tier, ins: &[Input], from: usize, to: usize, ctx:
         // abnormal end: attribute to the case in progress
         match current {
             Some(i) => {
-                let sig = if hung { format!("hang:no-progress-for-{}s", HANG_SECS) } else { sig_for_abnormal(&status, saw_cap) };
+                let sig = if hung { format!("hang:no-progress-for-{}s", E3_HANG_SECS) } else { sig_for_abnormal(&status, saw_cap) };
                 let mut h = Fnv::new();
                 h.u64(i as u64);
                 ctx.case_done(h.finish(), true, 2);
@@ -890,6 +913,10 @@ fn supervise(prop: Prop, tier: Tier, ins: &[Input], from: usize, to: usize, ctx:
         }
     }
 }
+
+/// A worker that reports nothing for this long is taken to hang on the case in progress (shorter than the
+/// engine's own watchdog, which would otherwise end the whole run as a machinery failure first).
+const E3_HANG_SECS: u64 = 8;
 
 pub fn check(prop: Prop, tier: Tier) -> i32 {
     let started = Instant::now();
